@@ -22,6 +22,33 @@ mod writing;
 use serde_json::{json, Value};
 use util::{arg_flag, arg_val, Rng};
 
+/// The harness re-reads the bytes behind references the code under test handed out (C11: items of a reply
+/// stream that the consumer still holds).  If the buffer they point into was freed or moved meanwhile the
+/// old bytes would usually still be there and the defect would go unnoticed; this allocator makes it
+/// visible: freed memory is overwritten first and a reallocation always moves.
+struct Poison;
+unsafe impl std::alloc::GlobalAlloc for Poison {
+    unsafe fn alloc(&self, l: std::alloc::Layout) -> *mut u8 {
+        std::alloc::System.alloc(l)
+    }
+    unsafe fn dealloc(&self, p: *mut u8, l: std::alloc::Layout) {
+        std::ptr::write_bytes(p, 0xDD, l.size());
+        std::alloc::System.dealloc(p, l)
+    }
+    unsafe fn realloc(&self, p: *mut u8, l: std::alloc::Layout, new_size: usize) -> *mut u8 {
+        let nl = std::alloc::Layout::from_size_align_unchecked(new_size, l.align());
+        let q = std::alloc::System.alloc(nl);
+        if !q.is_null() {
+            std::ptr::copy_nonoverlapping(p, q, l.size().min(new_size));
+            std::ptr::write_bytes(p, 0xDD, l.size());
+            std::alloc::System.dealloc(p, l);
+        }
+        q
+    }
+}
+#[global_allocator]
+static ALLOC: Poison = Poison;
+
 /// Buffer growth step / limit this binary was built with (see the hook in connection/mod.rs).
 pub fn buffer_step() -> usize {
     option_env!("ZLINK_VERIF_BUFFER_SIZE")
